@@ -34,6 +34,11 @@ def run(ctx):
         "values are compared as opaque tokens rendered by the harness (16-bit limbs of the bit pattern, "
         "bytes of a string); the wire format is not specified, item widths are observed Len() deltas",
         "error identity is not compared (io.EOF / ErrByteBufferEmpty / ErrSizeLimit are all 'no value')",
+        "a whole string refused only for the caller's limit leaves all readers at the same place inside the "
+        "item (where is not specified): reading goes on from there and the readers must go on agreeing (LStep)",
+        "a string read where any reader sees an announced length above 1 MiB goes through behind a limit of "
+        "65535 for three probes per run; after that the open is given up (bounds the cost of a decoder that "
+        "allocates before it checks); the source bytes each stream reader pulled are logged (`pulled`, informational)",
         "after the first refusal of a reader, and on content the items do not determine (arbitrary bytes, "
         "a partially rewritten item), only 'no panic' and 'all readers agree' are required",
         "ReaderX has no varint readers: its sources skip the bytes the buffer reader consumed for them",
